@@ -43,7 +43,7 @@ CHECKS = {
  "C10": dict(cat="model_checking", ref="6.C10", tech="metamorphic twin scenarios (discovered dependencies vs the same written as implicit inputs) generated from Families.tla, both run on the real engine; TLC trace validation compares commands, results and final contents per invocation (RefTrace.tla twin monitor)",
              text="For every scenario with depfile / deps=gcc / deps=msvc dependencies (sources or generated, with or without a manifest path) and every change set and schedule, the run must start the same commands, end the same way and leave the same contents as the declared twin; ordering of generated headers is checked by the C04 monitor on the same traces. KF-DEPS-SKIPPED is reported by signature."),
  "C11": dict(cat="model_checking", ref="6.C11", tech="metamorphic twin scenarios (dyndep file vs its information inlined in the manifest) over dyndep graph shapes from Families.tla, plus every deletion / duplication / truncation / substitution variant of a dyndep file generated and judged valid or invalid by the token-level reference grammar spec/Dyndep.tla; all completion orders on the real engine, TLC trace validation (twin monitor; invalid file => build fails and none of its statements starts; valid variant => all engine monitors with the variant's meaning)",
-             text="Dyndep files that exist or are produced during the build (clean or dirty producer, shared, two levels, extra order-only inputs, discovered inputs/outputs/restat): same commands, result and final contents as the inlined twin for every history and schedule.  Invalid variants (malformed, truncated at every token, statement omitted / added / twice, foreign or duplicate output, bad path) of a file shared by two statements, as a source and as a build product: the build must fail. Not forced yet: a missing dyndep file."),
+             text="Dyndep files that exist or are produced during the build (clean or dirty producer, shared, two levels, extra order-only inputs, discovered inputs/outputs/restat): same commands, result and final contents as the inlined twin for every history and schedule.  Invalid variants (malformed, truncated at every token, statement omitted / added / twice, foreign or duplicate output, bad path) of a file shared by two statements, as a source and as a build product: the build must fail., and a dyndep file that is neither there nor produced."),
  "C17": dict(cat="model_checking", ref="6.C17", tech="graphs with back edges through every input kind, multi-output statements, recorded dependencies and dyndep files generated from Families.tla; real scan/build executions validated by TLC against the graph-theoretic cycle definition of NinjaRef.tla (CycleStmts / AcyclicN)",
              text="Soundness and completeness of cycle diagnosis over generated graphs: a cycle in the needed closure => non-zero exit, 'dependency cycle' message whose hops are real inputs, first = last, no command of the cycle run; no cycle => never the cycle message (validation back references included)."),
  "C19": dict(cat="model_checking", ref="6.C19", tech="histories with dry-run invocations (after changes, failures, crashes, early stops) from Families.tla on the real engine, and histories in which every read-only tool of the real ninja binary is run (family tools, H2); TLC trace validation against NinjaRef: no command started, sources/outputs/depfiles and both logs unchanged, dry-run listing = ExpectedRun, `-t commands` = non-phony statements of the from-scratch needed closure in an order respecting Producers, compdb output parses as JSON with quotes / control characters / non-ASCII bytes in the commands",
